@@ -65,6 +65,34 @@ Theorem C19_snapshot_guard_nonvacuous : exists s, run empty_session ex_history =
 Proof. exact ex_history_ok. Qed.
 Print Assumptions C19_snapshot_guard_nonvacuous.
 
+(* (3b) The lambda list of a lambda is written as it is: a default value is a FORM (stored unevaluated, evaluated when
+   the argument is missing) and stays that form, it is not replaced by its load form. Together with (1) and (3), whose
+   guards accept any non-nil form as a default, this covers functions, macros and lambdas with computed defaults. *)
+Theorem C19_lambda_list_verbatim : forall ll doc body,
+  exists rest, load_form (Lam ll doc body) = Ok (L (Sym "lambda" :: mkL ll :: rest)) /\ elems_of (mkL ll) = Some ll.
+Proof. exact lambda_list_verbatim. Qed.
+Print Assumptions C19_lambda_list_verbatim.
+
+(* (3c) INSTANCES as values of variables. What the snapshot writes for a value -- flavor instances included, nested
+   without bound, every instance variable's value going through ppValue again (lists quoted, nested instances as
+   nested forms) -- evaluates back to the value in every environment that knows the flavors.
+   PARTIAL with respect to sessions: (3) is proved for sessions without flavors; for sessions with a flavor and
+   instances the model's defflavor / make-instance / send / snapshot are compared with the implementation and the
+   decidable specification is evaluated on every run (self-check code 3), not proved for all histories. *)
+Theorem C19_instance_value_reloads_partial : forall v, snap_safe_i v = true -> forall e, env_ok e -> insts_in e v = true ->
+  exists f, pp_value v = Ok f /\ eval e f = Ok v.
+Proof. exact inst_value_reloads. Qed.
+Print Assumptions C19_instance_value_reloads_partial.
+Theorem C19_instance_guard_nonvacuous : snap_safe_i ex_instance = true /\ insts_in ex_env ex_instance = true
+  /\ bind (pp_value ex_instance) (eval ex_env) = Ok ex_instance.
+Proof. exact ex_instance_ok. Qed.
+Print Assumptions C19_instance_guard_nonvacuous.
+Theorem C19_flavor_session_nonvacuous :
+  let s := run_or_empty ex_flavor_history in
+  sess_ok_x s = true /\ sess_ok s = false /\ meets_spec s = true /\ List.length (snapshot s) = 5.
+Proof. exact ex_flavor_history_ok. Qed.
+Print Assumptions C19_flavor_session_nonvacuous.
+
 (* (4) Outside the guards the faithful model violates the specification: the known findings. *)
 Theorem C19_symbol_unquoted_refuted :
   loadable (L [Sym "a"; Sym "b"]) = false /\ load_form (L [Sym "a"; Sym "b"]) = Ok (L [Sym "list"; Sym "a"; Sym "b"])
@@ -120,3 +148,12 @@ Theorem C19_snapshot_hash_value_refuted :
   sess_ok s = false /\ meets_spec s = false /\ snd (load_forms empty_session (snapshot s)) = [true; false].
 Proof. exact snapshot_hash_value_refuted. Qed.
 Print Assumptions C19_snapshot_hash_value_refuted.
+(* make-load-form of an INSTANCE (instance.go InstanceLoadForm) puts the values of the instance variables into the form
+   as they are: with a list in an instance variable the load form cannot be evaluated, while the form the snapshot
+   writes for the same instance can *)
+Theorem C19_instance_load_form_raw_refuted :
+  bind (load_form (Inst "blk" [("sa", L [Fix 1; Fix 2; Fix 3]); ("sb", Fix 2)])) (eval ex_env) = Err ENotFunction
+  /\ bind (pp_value (Inst "blk" [("sa", L [Fix 1; Fix 2; Fix 3]); ("sb", Fix 2)])) (eval ex_env)
+     = Ok (Inst "blk" [("sa", L [Fix 1; Fix 2; Fix 3]); ("sb", Fix 2)]).
+Proof. exact instance_load_form_raw_refuted. Qed.
+Print Assumptions C19_instance_load_form_raw_refuted.
